@@ -299,7 +299,7 @@ PROPS = {
         level_text='Emission discipline and aggregation wiring decided exactly; numeric converter behaviour not claimed.',
     ),
     'C12': dict(
-        rules=[r_nan.s16_nan_sources, r_nan.s16b_dispersion_sign],
+        rules=[r_nan.s16_nan_sources, r_nan.s16b_dispersion_sign, r_nan.s16c_band_order],
         feature_sets=_sets(['default']),
         explanation=('(S16) every float division, remainder, sqrt, ln, atanh and recip in every non-constructor function is enumerated from MIR '
                      'and its critical operand classified: G1 non-zero literal; G2 cast of an integer that the abstract interpretation of '
@@ -307,8 +307,11 @@ PROPS = {
                      'afterwards; G3 dominated (CFG dominators) by a numeric test excluding zero for the same value (d == 0, d > 0, or a == b for '
                      'd = a - b), sqrt of abs()/square, atanh of a clamp with constant bounds inside (-1, 1); G4/G5 only through a table line naming '
                      'the function and stating the missing argument / "formula undefined here". Unclassified sites are violations. (S16b) sign '
-                     'analysis of the value tree returned by StDev/MeanAbsDev/MedianAbsDev::peek: non-negative by construction.'),
-        not_decided=['interval containment of oscillators ([0,1], [-1,1]), upper >= middle >= lower, channel containment, SAR side, non-negativity '
+                     'analysis of the value tree returned by StDev/MeanAbsDev/MedianAbsDev::peek: non-negative by construction. (S16c) BollingerBands builds '
+                     'upper/lower as fma(stdev, +-sigma, middle) with stdev >= 0 (S16b) and sigma > 0 (float bound learnt from validate()): upper >= middle >= '
+                     'lower holds in floating point because rounding is monotone.'),
+        not_decided=['interval containment of oscillators ([0,1], [-1,1]), band ordering of Keltner/Envelopes/price channels (their dispersion term is a running '
+                     'average or a product with a price), channel containment, SAR side, non-negativity '
                      'of LinearVolatility and of the true range: they depend on rounding residue in running sums or on relations between candle '
                      'fields and are not decided',
                      'the hand-argued classes G4/G5 (11 sites, listed with their arguments in the evidence) are arguments, not proofs'],
